@@ -1,4 +1,6 @@
 import ScrapliModel.Lemmas.Store
+import ScrapliModel.Lemmas.BodiesStore
+import ScrapliModel.Generated.BodiesStore
 /-!
 # C08 — Each NETCONF call gets the reply to its own request
 
@@ -231,5 +233,28 @@ def f2 : Reply := ⟨101, f2body, [10]⟩
 example : goodReply .v11 f2 = false := by decide +kernel
 example : (run .v11 init [.call, .read (f2body.take 37), .read (f2body.drop 37 ++ [10]), .poll]).results
     = [(101, some (f2body.take 37))] := by decide +kernel
+
+/-! ## tie to the source: translated body = model (regenerated on every run) -/
+
+/-- the body of `getID` as the translator renders it from the current source
+(`Generated/BodiesStore.lean`), on a match of the message-id pattern (whole match + one group of one
+or more digits): no index out of range, and the result is `atoiClamp` of the digits — `strconv.Atoi`
+(`Go.atoi`: the range error is dropped, the clamped value kept) -/
+theorem generated_getID_eq (whole ds : Bytes) (hne : ds ≠ []) (hd : ∀ b ∈ ds, isDigit b = true) :
+    Gen.Bodies.Store.getID [whole, ds] = some ((atoiClamp ds : Nat) : Int) := by
+  unfold Gen.Bodies.Store.getID
+  have hl : Go.len [whole, ds] = (Gen.Netconf.idOrSubMatchLen : Int) := rfl
+  have hi : Go.idxOK ((Gen.Netconf.idOrSubMatchLen : Nat) : Int) 1 = true := by decide
+  have ha : Go.at [whole, ds] 1 = ds := by simp [Go.at]
+  simp only [hl, bne_self_eq_false, Bool.false_eq_true, if_false, hi, Bool.not_true, ha]
+  rw [← atoi_digits ds hne hd]
+
+/-- … and `0` when `FindSubmatch` found nothing (or anything that is not "whole match + one group") -/
+theorem generated_getID_nomatch (m : List Bytes) (h : m.length ≠ Gen.Netconf.idOrSubMatchLen) :
+    Gen.Bodies.Store.getID m = some 0 := by
+  unfold Gen.Bodies.Store.getID
+  have : (Go.len m != (Gen.Netconf.idOrSubMatchLen : Int)) = true := by
+    simp only [Go.len, bne_iff_ne, ne_eq]; omega
+  simp [this]
 
 end Scrapli.Netconf.C08
